@@ -1,8 +1,8 @@
 package mon
 
 import (
-	"io"
 	"log"
+	"sync/atomic"
 
 	stackage "github.com/JesseCoretta/go-stackage"
 	"verifharness/core"
@@ -17,7 +17,7 @@ var procLogging bool
 // RestoreProcDefaults puts the package defaults back to what the process mode prescribes (for cases that change them).
 func RestoreProcDefaults() {
 	if procLogging {
-		w := log.New(io.Discard, "", 0)
+		w := log.New(NullWriter{}, "", 0)
 		stackage.SetDefaultStackLogger(w)
 		stackage.SetDefaultConditionLogger(w)
 		stackage.SetDefaultStackLogLevel(stackage.AllLogLevels)
@@ -77,3 +77,20 @@ func procWarm(mode int) {
 }
 
 func init() { core.ProcWarm = procWarm }
+
+// NullWriter swallows what is written to it without being io.Discard (which the library recognises as "logging off").
+type NullWriter struct{}
+
+var nullLines, nullBytes atomic.Int64
+
+func (NullWriter) Write(p []byte) (int, error) {
+	nullLines.Add(1)
+	nullBytes.Add(int64(len(p)))
+	return len(p), nil
+}
+
+func init() {
+	core.ProcCounters = func() map[string]int64 {
+		return map[string]int64{"process.log-events-emitted-by-the-library": nullLines.Load(), "process.log-bytes-emitted-by-the-library": nullBytes.Load()}
+	}
+}
